@@ -95,7 +95,7 @@ static std::vector<uint64_t> alphabet() {
 // ================================================================================================ families
 struct Tier {
 	bool thorough; uint64_t seed; unsigned scale;   // scale > 1: take every scale-th case of the big families (2048-iteration profile)
-	std::vector<uint32_t> immQ, immT; std::vector<unsigned> modQ, modA, modOps; std::vector<uint64_t> alpha;
+	std::vector<uint32_t> immQ, immT, immS; std::vector<unsigned> modQ, modA, modOps; std::vector<uint64_t> alpha;
 };
 struct WordSpace {   // opcode x 65 register pairs x mod x imm, imm fastest
 	const std::vector<unsigned>* mods; const std::vector<uint32_t>* imms; const std::vector<unsigned>* opcodes = nullptr;   // opcodes == nullptr: all 256
@@ -123,7 +123,7 @@ struct Families {
 	explicit Families(const Tier& tt) : t(tt) {
 		spaces.push_back(WordSpace{ &t.modQ, &t.immQ });
 		if (t.thorough) {
-			spaces.push_back(WordSpace{ &t.modA, &t.immQ });            // a1: all 256 mod values
+			spaces.push_back(WordSpace{ &t.modA, &t.immS });            // a1: all 256 opcodes x all 256 mod values x a 16-value imm32 set
 			spaces.push_back(WordSpace{ &t.modQ, &t.immT });            // a2: the large imm32 set
 			spaces.push_back(WordSpace{ &t.modA, &t.immT, &t.modOps }); // a3: full mod x imm32 cross for one opcode of every type that reads mod
 		}
@@ -403,6 +403,7 @@ static int modeReplay(const vf::Args& a) {
 	Case c = caseFromJson(*rp);
 	if ((int)rp->at("iterations").num() != RANDOMX_PROGRAM_ITERATIONS) { fprintf(stderr, "c20: replay was recorded with %d iterations, this executable has %d\n", (int)rp->at("iterations").num(), RANDOMX_PROGRAM_ITERATIONS); return 2; }
 	if (!env.init(!c.light, false) || !E.init(&env, err)) { fprintf(stderr, "c20: setup failed %s %s\n", env.error.c_str(), err.c_str()); return 2; }
+	E.m.traceCsr = a.opt.count("trace-csr") != 0;
 	Outcome o = E.run(c);
 	printf("replay: v%d %s, scratchpad image %d, entry rounding %d: %s%s%s\n", c.v2 ? 2 : 1, c.light ? "light" : "full", c.spad, c.rmode, o.agree ? "AGREE" : "DISAGREE ", o.kind.c_str(), o.agree ? "" : (": " + o.detail).c_str());
 	for (unsigned s = 0; s < c.size(); ++s) if (c.word(s) != NoOp()) { static int shown = 0; if (shown++ < 8) printf("  slot %u: %s\n", s, wordText(c.word(s)).c_str()); }
@@ -423,6 +424,7 @@ int main(int argc, char** argv) {
 	tier.scale = RANDOMX_PROGRAM_ITERATIONS > 64 ? 64 : 1;
 	if (a.opt.count("scale")) tier.scale = (unsigned)atoi(a.get("scale").c_str());
 	tier.immQ = immSet(false); tier.immT = immSet(true); tier.modQ = modSet(false); tier.modA = modSet(true); tier.alpha = alphabet();
+	tier.immS = { 0, 1, 0x7FF, 0x800, 0x1FFF, 0x2000, 0x1FFFF, 0x20000, 0x3FFF8, 0x1FFFF8, 0x7FFFF800, 0x80000000u, 0xFFFFF800u, 0xFFFFFFFFu, 0x12345678, 0xDEADBEEFu };
 	for (int ty : { T_IADD_RS, T_IADD_M, T_ISUB_M, T_IMUL_M, T_IMULH_M, T_ISMULH_M, T_IXOR_M, T_FADD_M, T_FSUB_M, T_FDIV_M, T_CBRANCH, T_ISTORE }) tier.modOps.push_back((unsigned)firstOpcode[ty]);
 
 	Env env;
